@@ -209,6 +209,8 @@ static void cb_pair (NiceAgent *ag, guint s, guint c, NiceCandidate *l, NiceCand
 static void cb_newcand (NiceAgent *ag, NiceCandidate *c, gpointer u) { SimAgent *sa = u; char o[300]; cand_s (c, o); T ("sig %d new-candidate %u %u %s", sa->idx, c->stream_id, c->component_id, o); }
 static void cb_newrcand (NiceAgent *ag, NiceCandidate *c, gpointer u) { SimAgent *sa = u; char o[300]; cand_s (c, o); T ("sig %d new-remote-candidate %u %u %s", sa->idx, c->stream_id, c->component_id, o); }
 static void cb_ibr (NiceAgent *ag, guint s, gpointer u) { SimAgent *sa = u; T ("sig %d initial-binding-request %u", sa->idx, s); }
+static gchar *last_sdp[MAXA];
+static void cb_closed (GObject *o, GAsyncResult *res, gpointer u) { SimAgent *sa = u; T ("sig %d closed", sa->idx); }
 static void cb_removed (NiceAgent *ag, guint *ids, gpointer u) { SimAgent *sa = u; T ("sig %d streams-removed", sa->idx); for (; *ids; ids++) fprintf (hc_out, " %u", *ids); }
 static void cb_recv (NiceAgent *ag, guint s, guint c, guint len, gchar *buf, gpointer u)
 { SimAgent *sa = u; unsigned h = 5381; for (guint i = 0; i < len; i++) h = (h * 33 + (guint8) buf[i]) & 0xffffff; T ("rx %d %u %u %u %u", sa->idx, s, c, len, h); }
@@ -458,6 +460,18 @@ static void do_op (char *op)
     T ("api %d set_selected_pair %d %d =%d", I (1), I (2), I (3), ok); g_slist_free_full (l, (GDestroyNotify) nice_candidate_free); g_slist_free_full (r, (GDestroyNotify) nice_candidate_free); }
   else if (!strcmp (a[0], "inject")) { /* inject,fromip,fromport,toip,toport,hex : attacker datagram */ NiceAddress f = mkaddr (a[1], I (2)), t = mkaddr (a[3], I (4)); size_t l; unsigned char *b = hc_unhex (a[5], &l); net_send (&f, &t, b, l); free (b); }
   else if (!strcmp (a[0], "attacker")) { /* attacker,period_ms(0=off),kind mask */ atk_period_us = I (1) * 1000LL; atk_next_us = atk_period_us ? vnow_us + atk_period_us : G_MAXINT64; atk_mask = n > 2 ? (unsigned) atoi (a[2]) : ~0u; atk_s = rng_s * 0x2545F4914F6CDD1DULL | 1; }
+  else if (!strcmp (a[0], "sdpgen")) { int i = I (1); g_free (last_sdp[i]); last_sdp[i] = nice_agent_generate_local_sdp (A[i].agent); T ("api %d generate_local_sdp len=%zu", i, last_sdp[i] ? strlen (last_sdp[i]) : 0); }
+  else if (!strcmp (a[0], "sdpparse")) { int i = I (1), j = I (2); int r = last_sdp[j] ? nice_agent_parse_remote_sdp (A[i].agent, last_sdp[j]) : -99; T ("api %d parse_remote_sdp from=%d =%d", i, j, r); }
+  else if (!strcmp (a[0], "detach")) { gboolean r = nice_agent_attach_recv (A[I (1)].agent, I (2), I (3), ctx, NULL, NULL); T ("api %d detach_recv %d %d =%d", I (1), I (2), I (3), r); }
+  else if (!strcmp (a[0], "attach")) { gboolean r = nice_agent_attach_recv (A[I (1)].agent, I (2), I (3), ctx, cb_recv, &A[I (1)]); T ("api %d attach_recv %d %d =%d", I (1), I (2), I (3), r); }
+  else if (!strcmp (a[0], "setremote")) { GSList *r = nice_agent_get_remote_candidates (A[I (1)].agent, I (2), I (3)); gboolean ok = FALSE; if (r) ok = nice_agent_set_selected_remote_candidate (A[I (1)].agent, I (2), I (3), r->data);
+    T ("api %d set_selected_remote_candidate %d %d =%d", I (1), I (2), I (3), ok); g_slist_free_full (r, (GDestroyNotify) nice_candidate_free); }
+  else if (!strcmp (a[0], "forget")) { gboolean r = nice_agent_forget_relays (A[I (1)].agent, I (2), I (3)); T ("api %d forget_relays %d %d =%d", I (1), I (2), I (3), r); }
+  else if (!strcmp (a[0], "close")) { int i = I (1); if (A[i].agent) { nice_agent_close_async (A[i].agent, cb_closed, &A[i]); T ("api %d close_async", i); } }
+  else if (!strcmp (a[0], "setcreds")) { gboolean r = nice_agent_set_local_credentials (A[I (1)].agent, I (2), a[3], a[4]); T ("api %d set_local_credentials %d =%d", I (1), I (2), r); }
+  else if (!strcmp (a[0], "tos")) { nice_agent_set_stream_tos (A[I (1)].agent, I (2), I (3)); T ("api %d set_stream_tos %d", I (1), I (2)); }
+  else if (!strcmp (a[0], "name")) { gboolean r = nice_agent_set_stream_name (A[I (1)].agent, I (2), a[3]); T ("api %d set_stream_name %d %s =%d", I (1), I (2), a[3], r); }
+  else if (!strcmp (a[0], "peerrfx")) { /* remote candidates containing a bogus extra one, set twice */ GSList *l = nice_agent_get_local_candidates (A[I (2)].agent, I (3), I (4)); int r = nice_agent_set_remote_candidates (A[I (1)].agent, I (3), I (4), l); r = nice_agent_set_remote_candidates (A[I (1)].agent, I (3), I (4), l); T ("api %d set_remote_candidates_twice %d %d =%d", I (1), I (3), I (4), r); g_slist_free_full (l, (GDestroyNotify) nice_candidate_free); }
   else if (!strcmp (a[0], "digest")) { for (int i = 0; i < nagents; i++) digest (i); }
   else if (!strcmp (a[0], "state")) { guint st = nice_agent_get_component_state (A[I (1)].agent, I (2), I (3)); T ("api %d get_state %d %d =%s", I (1), I (2), I (3), stname (st)); }
   else if (!strcmp (a[0], "selected")) { NiceCandidate *l = NULL, *r = NULL; gboolean ok = nice_agent_get_selected_pair (A[I (1)].agent, I (2), I (3), &l, &r); char x[80] = "-", y[80] = "-"; if (ok) { addr_s (&l->addr, x); addr_s (&r->addr, y); } T ("api %d get_selected_pair %d %d =%d %s %s", I (1), I (2), I (3), ok, x, y); }
@@ -479,7 +493,7 @@ int main (void)
     ctx = g_main_context_new (); vsocks = g_ptr_array_new (); inflight = NULL; pkt_serial = 0; next_port = 40000; nagents = 0; nservers = 0; memset (A, 0, sizeof A);
     consec = g_hash_table_new_full (g_str_hash, g_str_equal, g_free, NULL); resp_tokens = g_hash_table_new_full (g_str_hash, g_str_equal, g_free, NULL); blackhole = g_hash_table_new_full (g_str_hash, g_str_equal, g_free, NULL);
     for (int i = 0; i < n_vif; i++) g_free (vif[i]); n_vif = 0;
-    atk_period_us = 0; atk_next_us = G_MAXINT64; reqlog_n = 0; srv_loss = 0; for (int i = 0; i < 4; i++) { g_free (old_ufrag[i]); g_free (old_pwd[i]); old_ufrag[i] = old_pwd[i] = NULL; }
+    atk_period_us = 0; atk_next_us = G_MAXINT64; reqlog_n = 0; srv_loss = 0; for (int i = 0; i < MAXA; i++) { g_free (last_sdp[i]); last_sdp[i] = NULL; } for (int i = 0; i < 4; i++) { g_free (old_ufrag[i]); g_free (old_pwd[i]); old_ufrag[i] = old_pwd[i] = NULL; }
     p_drop = p_dup = 0; d_min_us = d_max_us = 1000; max_consec_loss = 2; vnow_us = 1000000000LL; dispatch_count = 0; trace_pkts = 1; spinning = 0;
     fprintf (hc_out, "%s", id);
     char *op; int aborted = 0;
